@@ -47,6 +47,11 @@ func runCLI(c C20Case) cliResult {
 	}
 	defer os.RemoveAll(dir)
 	in, out, errf := filepath.Join(dir, "in.ion"), filepath.Join(dir, "out"), filepath.Join(dir, "err")
+	// the output and error-report paths already exist and hold longer, unrelated
+	// content: process must replace it, not overwrite its beginning
+	stale := bytes.Repeat([]byte("stale output from an earlier run\n"), 4000)
+	os.WriteFile(out, stale, 0o644)
+	os.WriteFile(errf, stale, 0o644)
 	args := []string{"process", "-o", out, "-e", errf}
 	if c.Format != "" {
 		args = append(args, "-f", c.Format)
@@ -410,6 +415,27 @@ func TestC20(t *testing.T) {
 		for _, v := range vals {
 			docs = append(docs, printDoc([]model.Value{v}, nil).Doc, encodeDoc([]model.Value{v}, nil).Doc)
 		}
+		// containers nested 70 and 130 deep (structs, and mixed)
+		deepS := model.Int64V(1)
+		for i := 0; i < 130; i++ {
+			deepS = model.StructV(model.Field{Name: model.S("a"), Val: deepS})
+			if i == 69 {
+				docs = append(docs, printDoc([]model.Value{deepS}, nil).Doc, encodeDoc([]model.Value{deepS}, nil).Doc)
+			}
+		}
+		docs = append(docs, printDoc([]model.Value{deepS}, nil).Doc)
+		deepM := model.Int64V(1)
+		for i := 0; i < 80; i++ {
+			switch i % 3 {
+			case 0:
+				deepM = model.StructV(model.Field{Name: model.S("f"), Val: deepM}, model.Field{Name: model.S("g"), Val: model.Int64V(int64(i))})
+			case 1:
+				deepM = model.ListV(deepM)
+			default:
+				deepM = model.SexpV(deepM)
+			}
+		}
+		docs = append(docs, printDoc([]model.Value{deepM}, nil).Doc)
 		docs = append(docs, printDoc(vals, nil).Doc, encodeDoc(vals, nil).Doc, []byte(""), []byte("[1,"), []byte("{a:"), []byte("\"abc"), refbin.IVM, append(append([]byte{}, refbin.IVM...), 0xB6, 0x21))
 		for i, d := range docs {
 			// file input for every document, stdin for every third one (process
